@@ -83,6 +83,31 @@ Proof.
 Qed.
 
 (* ------------------------------------------------------------------ take / release *)
+(* a successful take_at (first inactive register, or a named inactive one) *)
+Lemma take_at_inv : forall o st i s1,
+  take_at o st = Ok (i, s1) ->
+  nth_error (l_act st) i = Some false /\
+  s1 = with_act st (set_nth (l_act st) i true) (Nat.max (l_peak st) (count_true (set_nth (l_act st) i true))).
+Proof.
+  intros o st i s1 H. destruct o as [k|]; cbn [take_at] in H.
+  - destruct (nth_error (l_act st) k) as [[]|] eqn:E; try discriminate.
+    unfold activate in H. inversion H; subst. split; [exact E|reflexivity].
+  - destruct (first_false (l_act st) 0) as [k|] eqn:Hf; [|discriminate].
+    unfold activate in H. inversion H; subst. apply first_false_spec in Hf. destruct Hf as [_ Hf].
+    replace (i - 0) with i in Hf by lia. split; [exact Hf|reflexivity].
+Qed.
+
+Lemma take_at_facts : forall o st i s1,
+  take_at o st = Ok (i, s1) ->
+  nth_error (l_act st) i = Some false /\
+  l_act s1 = set_nth (l_act st) i true /\
+  l_peak s1 = Nat.max (l_peak st) (S (count_true (l_act st))) /\
+  l_lv s1 = l_lv st /\ l_rf s1 = l_rf st /\ l_q s1 = l_q st /\ l_len s1 = l_len st /\
+  l_next s1 = l_next st /\ l_decl s1 = l_decl st /\ l_ret s1 = l_ret st /\ l_mused s1 = l_mused st.
+Proof.
+  intros o st i s1 H. apply take_at_inv in H. destruct H as [Hf ->].
+  repeat split; simpl; auto. rewrite (count_set_true _ _ Hf). reflexivity.
+Qed.
 Lemma take_facts : forall st i s1,
   take st = Ok (i, s1) ->
   nth_error (l_act st) i = Some false /\
@@ -90,20 +115,22 @@ Lemma take_facts : forall st i s1,
   l_peak s1 = Nat.max (l_peak st) (S (count_true (l_act st))) /\
   l_lv s1 = l_lv st /\ l_rf s1 = l_rf st /\ l_q s1 = l_q st /\ l_len s1 = l_len st /\
   l_next s1 = l_next st /\ l_decl s1 = l_decl st /\ l_ret s1 = l_ret st /\ l_mused s1 = l_mused st.
-Proof.
-  intros st i s1 H. unfold take in H.
-  destruct (first_false (l_act st) 0) as [k|] eqn:Hf; [|discriminate].
-  inversion H; subst. apply first_false_spec in Hf. destruct Hf as [_ Hf].
-  replace (i - 0) with i in Hf by lia.
-  repeat split; simpl; auto. rewrite (count_set_true _ _ Hf). reflexivity.
-Qed.
+Proof. exact (take_at_facts None). Qed.
 
 Lemma take_err : forall st e,
   take st = Err e -> e = EOutOfRegs /\ count_true (l_act st) = List.length (l_act st).
 Proof.
-  intros st e H. unfold take in H.
+  intros st e H. unfold take, take_at in H.
   destruct (first_false (l_act st) 0) as [k|] eqn:Hf; [discriminate|].
   inversion H. split; [reflexivity|]. eapply first_false_none; eauto.
+Qed.
+(* a named register that is not available is an ill-formed program, not an exhausted pool *)
+Lemma take_at_err : forall o st e,
+  take_at o st = Err e -> e = EOutOfRegs -> count_true (l_act st) = List.length (l_act st).
+Proof.
+  intros o st e H He. destruct o as [k|].
+  - cbn [take_at] in H. destruct (nth_error (l_act st) k) as [[]|]; inversion H; subst; discriminate.
+  - apply take_err in H. tauto.
 Qed.
 
 (* ------------------------------------------------------------------ the summary of a completed operation *)
@@ -133,15 +160,19 @@ Lemma good_same_r : forall a b st n, same_ap a b -> good st a n -> good st b n.
 Proof. unfold good, same_ap. intros a b st n (E1 & E2) (H1 & H2 & H3). rewrite <- E1, <- E2. auto. Qed.
 
 (* take; something that restores the pool; release *)
-Lemma good_bracket : forall st i s1 s2 n,
-  take st = Ok (i, s1) -> good s1 s2 n -> good st (release i s2) (S n).
+Lemma good_bracket_at : forall o st i s1 s2 n,
+  take_at o st = Ok (i, s1) -> good s1 s2 n -> good st (release i s2) (S n).
 Proof.
-  intros st i s1 s2 n Ht (H1 & H2 & H3).
-  apply take_facts in Ht. destruct Ht as (Hf & Ha & Hp & _).
+  intros o st i s1 s2 n Ht (H1 & H2 & H3).
+  apply take_at_facts in Ht. destruct Ht as (Hf & Ha & Hp & _).
   unfold good, release. cbn [l_act l_peak with_act].
   rewrite H1, Ha. rewrite (set_nth_undo _ _ Hf). repeat split; [lia|].
   rewrite Ha in H3. rewrite (count_set_true _ _ Hf) in H3. lia.
 Qed.
+
+Lemma good_bracket : forall st i s1 s2 n,
+  take st = Ok (i, s1) -> good s1 s2 n -> good st (release i s2) (S n).
+Proof. exact (good_bracket_at None). Qed.
 
 Lemma release_comm_act : forall i j st,
   l_act (release i (release j st)) = l_act (release j (release i st)).
@@ -181,8 +212,8 @@ Definition epr_need (k : eprkind) (inner : nat) : nat :=
 
 Fixpoint need (s : stmt) : nat :=
   match s with
-  | SFutAdd _ _ _ _ => 2
-  | SRegAdd _ _ _ => 1
+  | SFutAdd _ _ _ _ | SFutAddX _ _ _ _ _ => 2
+  | SRegAdd _ _ _ | SMeasFutX _ _ _ _ _ => 1
   | SIf _ _ _ _ b => Nat.max (bneed b) 2
   | SLoop _ _ _ _ _ _ b | SForeach _ _ _ b => S (bneed b)
   | SLoopUntil _ _ b _ _ cl => S (Nat.max (bneed b) (Nat.max 1 (bneed cl)))
@@ -256,6 +287,7 @@ Proof.
     destruct (take st) as [[t s1]|e] eqn:Ht; cbn [bind] in H; [|discriminate].
     inversion H; subst. right. exists t. auto.
   - destruct (alook v (l_lv st)); inversion H; subst. left; auto.
+  - destruct (rf_lookup r st); inversion H; subst. left; auto.
 Qed.
 
 Lemma low_src_err : forall x st e,
@@ -268,6 +300,7 @@ Proof.
     + inversion H; subst. destruct ix; cbn [low_ix] in Hix; [discriminate|].
       destruct (alook v (l_lv st)); [discriminate|]. inversion Hix. discriminate.
   - destruct (alook v (l_lv st)); [discriminate|]. inversion H. discriminate.
+  - destruct (rf_lookup r st); [discriminate|]. inversion H. discriminate.
 Qed.
 
 Lemma low_ix_err : forall ix st e, low_ix ix st = Err e -> e <> EOutOfRegs.
@@ -327,13 +360,17 @@ Lemma good_len_count : forall st st' n,
   good st st' n -> List.length (l_act st') = List.length (l_act st) /\ count_true (l_act st') = count_true (l_act st).
 Proof. intros st st' n (H & _). rewrite H. auto. Qed.
 
+Lemma take_at_len_count : forall o st i s1,
+  take_at o st = Ok (i, s1) ->
+  List.length (l_act s1) = List.length (l_act st) /\ count_true (l_act s1) = S (count_true (l_act st)).
+Proof.
+  intros o st i s1 H. apply take_at_facts in H. destruct H as (Hf & Ha & _).
+  rewrite Ha, set_nth_length, (count_set_true _ _ Hf). auto.
+Qed.
 Lemma take_len_count : forall st i s1,
   take st = Ok (i, s1) ->
   List.length (l_act s1) = List.length (l_act st) /\ count_true (l_act s1) = S (count_true (l_act st)).
-Proof.
-  intros st i s1 H. apply take_facts in H. destruct H as (Hf & Ha & _).
-  rewrite Ha, set_nth_length, (count_set_true _ _ Hf). auto.
-Qed.
+Proof. exact (take_at_len_count None). Qed.
 
 Lemma low_meas_good : forall q ip keep st m c st1,
   low_meas q ip keep st = Ok (m, c, st1) -> same_ap st1 st.
@@ -465,20 +502,20 @@ Proof.
                 destruct (held_count _ _ _ Hhx) as [Hl2 Hc2]; [congruence|lia] ]).
         -- intros Hl Hc. apply low_cval_err in Hx. apply Hx; [congruence|lia].
     + intros Hl Hc. apply IH; [exact Hl|lia].
-  - (* SLoop *) intros cb v oreg start stop step body IH Hp st. destruct oreg; [discriminate|].
+  - (* SLoop *) intros cb v oreg start stop step body IH Hp st.
     cbn [plain] in Hp. specialize (IH Hp). cbn [lower_stmt need].
     destruct (alook v (l_lv st)); [oor_trivial|].
-    destruct (take st) as [[r st1]|e] eqn:Ht; cbn [bind].
+    destruct (take_at oreg st) as [[r st1]|e] eqn:Ht; cbn [bind].
     + specialize (IH (bind_lvr v r st1)).
       destruct (lower_block fd body (bind_lvr v r st1)) as [[cbody st2]|e]; cbn [bind].
       * assert (G : good st (release r (with_lvs st2 (l_lv st))) (S (bneed body))).
         { change (release r (with_lvs st2 (l_lv st))) with (with_lvs (release r st2) (l_lv st)).
           eapply good_same_r with (a := release r st2); [split; reflexivity|].
-          eapply good_bracket; [exact Ht|]. exact IH. }
+          eapply good_bracket_at; [exact Ht|]. exact IH. }
         destruct (is_nil cbody); exact G.
-      * intros Hl Hc. apply take_len_count in Ht. destruct Ht as [Hl1 Hc1].
+      * intros Hl Hc. apply take_at_len_count in Ht. destruct Ht as [Hl1 Hc1].
         apply IH; cbn [bind_lvr with_lvs l_act]; [congruence|lia].
-    + intros Hl Hc. apply take_err in Ht. destruct Ht as [_ Ht]. unfold NREGS in *. lia.
+    + intros Hl Hc He. apply (take_at_err _ _ _ Ht) in He. unfold NREGS in *. lia.
   - (* SForeach *) intros enum v a body IH Hp st. cbn [plain] in Hp. specialize (IH Hp). cbn [lower_stmt need].
     destruct (alook a (l_len st)); [|oor_trivial].
     destruct (alook v (l_lv st)); [oor_trivial|].
@@ -596,8 +633,28 @@ Proof.
         -- intros Hl Hc. apply transient_err in E3. destruct E3 as [_ E3]. unfold NREGS in *. lia.
       * intros Hl Hc. apply IH; [congruence|lia].
   - (* SFlush *) intros _ st. cbn [lower_stmt]. oor_trivial.
-  - intros a b n o m Hw. discriminate.
-  - intros q ip a b n Hw. discriminate.
+  - (* SFutAddX *) intros a b n o m _ st. cbn [lower_stmt need].
+    destruct (take st) as [[t st1]|e] eqn:Ht; cbn [bind].
+    + destruct (take_len_count _ _ _ Ht) as [Hl1 Hc1].
+      destruct (take st1) as [[ti st1i]|e] eqn:Hti; cbn [bind].
+      * assert (G1 : good st1 (release ti st1i) 1) by (eapply good_bracket with (n := 0); [exact Hti|apply good_refl]).
+        destruct (good_len_count _ _ _ G1) as [Hl2 Hc2].
+        destruct (low_src o (release ti st1i)) as [[[[lo y] ts] st2]|e] eqn:Hs; cbn [bind].
+        -- apply low_src_held in Hs. destruct Hs as [[-> ->]|(b' & -> & Hb)]; cbn [release_all].
+           ++ eapply good_bracket with (n := 1); [exact Ht|exact G1].
+           ++ apply good_release_swap. eapply good_bracket with (n := 1); [exact Ht|].
+              eapply good_weaken;
+                [eapply good_trans; [exact G1|eapply good_bracket with (n := 0); [exact Hb|apply good_refl]]|lia].
+        -- intros Hl Hc. apply low_src_err in Hs. apply Hs; [congruence|]. rewrite Hc2, Hc1. lia.
+      * intros Hl Hc. apply take_err in Hti. destruct Hti as [_ Hti]. unfold NREGS in *. lia.
+    + intros Hl Hc. apply take_err in Ht. destruct Ht as [_ Ht]. unfold NREGS in *. lia.
+  - (* SMeasFutX *) intros q ip a b n _ st. cbn [lower_stmt need].
+    destruct (low_meas q ip false st) as [[[m c] st1]|e] eqn:Em; cbn [bind].
+    + assert (Sm := low_meas_good _ _ _ _ _ _ _ Em).
+      destruct (take st1) as [[ti st1i]|e] eqn:Hti; cbn [bind].
+      * eapply good_same_l; [exact Sm|]. eapply good_bracket with (n := 0); [exact Hti|apply good_refl].
+      * eapply oor_same; [exact Sm|]. intros Hl Hc. apply take_err in Hti. destruct Hti as [_ Hti]. unfold NREGS in *. lia.
+    + intros _ _. eapply low_meas_err; eauto.
   - (* BNil *) intros _ st. cbn [lower_block]. apply good_refl.
   - (* BCons *) intros s IHs b IHb Hp st. cbn [bplain] in Hp. apply andb_prop in Hp. destruct Hp as [Hp1 Hp2].
     specialize (IHb Hp2). cbn [lower_block bneed].
